@@ -283,6 +283,73 @@ def closure_slots(facts, b):
                 clean = False
         if clean and pushes:
             elems = pushes
+    ps0 = param_vars(facts, b)
+    tvar0 = None
+    params0 = [p for p in facts.params(b) if p.get("pat")]
+    if len(params0) >= 2 and params0[1]["pat"].get("k") == "Binding":
+        tvar0 = params0[1]["pat"]["v"]
+    if elems is None and t.get("k") == "Call" and callee(t) == "core::iter::traits::iterator::Iterator::collect":
+        src = strip(t["args"][0])
+        # once(a).chain(once(b)).chain(once(c))
+        parts = []
+
+        def unchain(e):
+            e = strip(e)
+            if e.get("k") == "Call" and callee(e) == "core::iter::traits::iterator::Iterator::chain":
+                return unchain(e["args"][0]) and unchain(e["args"][1])
+            if e.get("k") == "Call" and callee(e) in ("core::iter::sources::once::once", "core::option::Option::<T>::into_iter"):
+                parts.append(e["args"][0])
+                return True
+            if e.get("k") == "Call" and callee(e) == "core::iter::traits::collect::IntoIterator::into_iter":
+                return unchain(e["args"][0])
+            return False
+        if unchain(src) and parts:
+            elems = parts
+        # t.iter().map(|&b| b.then(|| e)) : one slot per flag, each gated on its own flag
+        if elems is None and src.get("k") == "Call" and callee(src) == "core::iter::traits::iterator::Iterator::map":
+            it = peel(src["args"][0])
+            while isinstance(it, dict) and it.get("k") == "Call" and callee(it) in (
+                    "core::slice::<impl [T]>::iter", "core::iter::traits::iterator::Iterator::copied", "core::iter::traits::iterator::Iterator::cloned",
+                    "core::iter::traits::collect::IntoIterator::into_iter"):
+                it = peel(it["args"][0])
+            clo = strip(src["args"][1])
+            if var_of(it) == tvar0 and clo.get("k") == "Closure":
+                cb = facts.body(clo["closure"])
+                _, ct = closure_tail(facts, cb)
+                cps = [v for v, _, _, _ in param_vars(facts, cb)]
+                ct = strip(ct) if ct is not None else None
+                if ct is not None and ct.get("k") == "Call" and callee(ct) in ("core::bool::<impl bool>::then", "core::bool::<impl bool>::then_some") \
+                        and var_of(ct["args"][0]) in cps:
+                    return [{"k": "UniformGated", "e": ct["args"][1]}], tvar0, ""
+    if elems is None and var_of(tail) and strip(tail).get("k") == "VarRef" and t.get("k") == "Call" and callee(t) == "alloc::vec::from_elem" \
+            and _is_none(strip(t["args"][0])) and isinstance(lit_value(t["args"][1]), int):
+        # vec![None; n] followed by `if t[i] { v[i] = Some(e) }`
+        v = var_of(tail)
+        n_ = lit_value(t["args"][1])
+        filled = {}
+        clean = True
+        for s_ in stmts:
+            e_ = strip(s_.get("e")) if s_["s"] == "expr" else None
+            if e_ is None:
+                continue
+            if e_.get("k") == "If" and e_.get("else") is None:
+                body = _tail_value(e_["then"]) if strip(e_["then"]).get("e") is not None else None
+                asg = [x for x in walk(e_["then"]) if x.get("k") == "Assign"]
+                if len(asg) == 1:
+                    l = peel(asg[0]["l"])
+                    idx = None
+                    if l.get("k") == "Call" and callee(l) in ("core::ops::index::IndexMut::index_mut",) and var_of(l["args"][0]) == v:
+                        idx = lit_value(l["args"][1])
+                    elif l.get("k") == "Index" and var_of(l["e"]) == v:
+                        idx = lit_value(l["i"])
+                    if isinstance(idx, int) and 0 <= idx < n_ and idx not in filled:
+                        filled[idx] = {"k": "If", "cond": e_["cond"], "then": asg[0]["r"], "else": {"k": "Adt", "adt": OPTION, "variant": "None", "fields": []},
+                                       "sp": e_.get("sp"), "ty": ""}
+                        continue
+            if any(x.get("k") in ("VarRef", "UpvarRef") and x["v"] == v for x in walk(e_)):
+                clean = False
+        if clean:
+            elems = [filled.get(i, {"k": "Adt", "adt": OPTION, "variant": "None", "fields": [], "sp": t.get("sp")}) for i in range(n_)]
     if elems is None:
         return None, None, "the closure's result is not a vec![..] literal: %s" % show(t)[:100]
     # slots bound to lets first
@@ -321,6 +388,19 @@ def single_operand_attach_only_if_tracked(facts, ctor):
     return True
 
 
+def _arity_from_evaluator(facts, ctor):
+    rows, variables, err = TE.evaluate_constructor(facts, ctor)
+    if rows is None:
+        return None
+    ks = set()
+    for asg, res, e, _ in rows:
+        if e is not None or not isinstance(res, TE.Arr):
+            return None
+        if res.same is None and res.tracked:
+            ks.add(len(res.children or []))
+    return sorted(ks) if ks else None
+
+
 def r9_slot_arity_and_gate(facts):
     """R9: one adjoint slot per recorded operand, slot i gated on operand i."""
     c = Ctx("R9", facts, "one adjoint slot per recorded operand, slot i gated on operand i")
@@ -346,14 +426,22 @@ def r9_slot_arity_and_gate(facts):
             if nested_in_backward:
                 c.unk(inst + "#arity", where, "backward closure nested inside another backward closure")
                 continue
+        if len(slots) == 1 and slots[0].get("k") == "UniformGated":
+            c.ok(inst + "#arity", where, "one slot per flag of the mask (`t.iter().map(|&b| b.then(..))`): arity equals the number of recorded operands by construction")
+            c.ok(inst + "#slot*", loc(b, slots[0]["e"]), "every slot is Some only if its own flag is set")
+            continue
         ar = attached_arity(facts, parent, ("closure", b["def"]))
         if not ar:
             c.unk(inst + "#arity", where, "cannot find where the closure is attached in %s" % parent["def"])
             continue
         bad = [(k, w) for k, w in ar if k is None]
         if bad:
-            c.unk(inst + "#arity", where, "attachment not understood: %s" % "; ".join(w for _, w in bad))
-            continue
+            # the children vector is not a literal: ask the guard evaluator how many operands are recorded
+            ks = _arity_from_evaluator(facts, parent)
+            if ks is None:
+                c.unk(inst + "#arity", where, "attachment not understood: %s" % "; ".join(w for _, w in bad))
+                continue
+            ar = [(k, "evaluated: %d operands recorded" % k) for k in ks]
         ks = {k for k, _ in ar}
         if ks != {len(slots)}:
             c.bad(inst + "#arity", where,
